@@ -46,6 +46,10 @@ What is proved
     returns True only for logically equivalent rules, relative to the ASSUMED soundness of sympy's `equals`.
     `GPRCleaner.visit_BinOp`: `&` -> a new BoolOp with an And node, `|` -> with an Or node, `values` a LIST of exactly the two
     cleaned operands in order, TypeError for any other operator (see the last section).
+(4) `GPR._eval_gpr` / `GPR.eval` once more, against semh (keys `GPR._eval_gpr/heap`, `GPR.eval/heap`; c07_knockout proves them
+    against `sem` over immutable child sequences): all clauses above are about the function the evaluator computes.
+    Lemma `remove-genes/kept-rule-is-old-rule-with-genes-absent`: the contract of _GeneRemover.visit for the body, lifted to the GPR
+    object whose body remove_genes replaces.
 NOT attempted: GPRCleaner.visit_Name (rewrites identifiers: string level), from_symbolic._sympy_to_ast (allocates nodes
 under a list comprehension), GPR.copy (deepcopy of a tree), the root case of _GeneRemover.visit (generic_visit deletes the `body`
 attribute of the GPR object; remove_genes then sets it to None).
@@ -85,6 +89,7 @@ Mutation trials (tools/mutate_and_run.sh; every mutant left the named obligation
                                                                                         post of the case / call:_symbolic_gpr/pre
   gene.py    __eq__: `return False` -> `return True` (one empty / one Symbol); other_symb from self; `and` -> `or`     post
   gene.py    as_symbolic: table {} instead of None; self.body instead of self           call:GPR._symbolic_gpr/pre
+  gene.py    _eval_gpr: `not in` -> `in`; any -> all; eval: knockouts=set()                   post of the case (heap contracts)
   gene.py    visit_BinOp: TUPLE (node.left, node.right) (the historical defect)         call:BoolOp.__init__/pre
   gene.py    visit_BinOp: And() -> Or(); operands swapped; BitAnd test -> BitOr; raise -> return node; [node.left] only
                                                                                         post.7 / post.9-11 / expected-TypeError / post.8
@@ -129,10 +134,14 @@ def tree_axioms(E, st):
     return tree_axioms_arr(H(E, st, "ast_tag"), H(E, st, "id"), H(E, st, "op"))
 
 
-def tree_axioms_arr(tg, nid, op):
-    """one-step unfolding of semh / wfh (both directions) / below, for EVERY heap (VN, VS, BD); union of id sets"""
+def tree_axioms_arr(tg, nid, op, at=None):
+    """one-step unfolding of semh / wfh (both directions) / below, for EVERY heap (VN, VS, BD); union of id sets.
+    at=<node>: only the instances of the unfolding axioms at that node (for the induction-step lemmas: the step unfolds the
+    definitions at the node itself and uses the induction hypothesis below it)"""
     VN, VS, BD = z3.Const("aVN", RefInt), z3.Const("aVS", RefSeq), z3.Const("aBD", RefRef)
     x, y, K, K2, i, k = z3.Const("ax", Ref), z3.Const("ay", Ref), z3.Const("aK", IdSet), z3.Const("aK2", IdSet), z3.Int("ai"), z3.Const("ak", Id)
+    if at is not None:
+        x = at
     h = (VN, VS, BD)
     S = lambda x_, K_: semh(VN, VS, BD, x_, K_)  # noqa
     W = lambda x_: wfh(VN, VS, BD, x_)  # noqa
@@ -143,7 +152,11 @@ def tree_axioms_arr(tg, nid, op):
     kids_any = z3.Exists([i], z3.And(0 <= i, i < n, S(kid(i), K)))
     kids_all = z3.ForAll([i], z3.Implies(z3.And(0 <= i, i < n), S(kid(i), K)))
     b = wfh_bad(VN, VS, BD, x)
-    hv = [VN, VS, BD]
+
+    class _HV(list):            # the quantified heap variables; `hv + [x, ...]` drops x when it is the fixed node `at`
+        def __add__(self, other):
+            return list(self) + [v for v in other if not (at is not None and v is x)]
+    hv = _HV([VN, VS, BD])
     return [
         z3.ForAll(hv + [x, K], z3.Implies(z3.And(is_root, BD[x] == NULL), S(x, K)), patterns=[S(x, K)]),
         z3.ForAll(hv + [x, K], z3.Implies(z3.And(is_root, BD[x] != NULL), S(x, K) == S(BD[x], K)), patterns=[S(x, K)]),
@@ -314,7 +327,7 @@ def lemmas():
     g = (z3.Const("l_VN2", RefInt), z3.Const("l_VS2", RefSeq), z3.Const("l_BD2", RefRef))
     t, K, i = z3.Const("l_t", Ref), z3.Const("l_K", IdSet), z3.Int("l_i")
     is_root = z3.Or(tg[t] == T_EXPRESSION, tg[t] == T_GPR)
-    hyp = tree_axioms_arr(tg, nid, op) + [
+    hyp = tree_axioms_arr(tg, nid, op, at=t) + [
         wfh(*h, t), t != NULL,
         # the two heaps agree at t itself
         h[0][t] == g[0][t], h[1][t] == g[1][t], h[2][t] == g[2][t],
@@ -345,10 +358,16 @@ def names_axioms(E, st):
     return names_axioms_arr(H(E, st, "ast_tag"), H(E, st, "id"))
 
 
-def names_axioms_arr(tg, nid):
+def names_axioms_arr(tg, nid, at=None):
     VN, VS, BD = z3.Const("nVN", RefInt), z3.Const("nVS", RefSeq), z3.Const("nBD", RefRef)
     x, k, i = z3.Const("nx", Ref), z3.Const("nk", Id), z3.Int("ni")
-    hv = [VN, VS, BD]
+    if at is not None:
+        x = at
+
+    class _HV(list):
+        def __add__(self, other):
+            return list(self) + [v for v in other if not (at is not None and v is x)]
+    hv = _HV([VN, VS, BD])
     N = lambda x_: names(VN, VS, BD, x_)  # noqa
     n, kid = VN[x], (lambda j: VS[x][j])
     is_root = z3.Or(tg[x] == T_EXPRESSION, tg[x] == T_GPR)
@@ -360,7 +379,10 @@ def names_axioms_arr(tg, nid):
         z3.ForAll(hv + [x, k, i], z3.Implies(z3.And(tg[x] == T_BOOLOP, 0 <= i, i < n, N(kid(i))[k]), N(x)[k]),
                   patterns=[z3.MultiPattern(N(kid(i))[k], N(x))]),
         z3.ForAll(hv + [x, k], z3.Implies(z3.And(is_root, BD[x] == NULL), z3.Not(N(x)[k])), patterns=[N(x)[k]]),
-        z3.ForAll(hv + [x, k], z3.Implies(z3.And(is_root, BD[x] != NULL), N(x)[k] == N(BD[x])[k]), patterns=[N(x)[k]]),
+        z3.ForAll(hv + [x, k], z3.Implies(z3.And(is_root, BD[x] != NULL), N(x)[k] == N(BD[x])[k]),
+                  patterns=[N(x)[k], z3.MultiPattern(N(BD[x])[k], N(x))]),
+        # (instance of the first axiom at k = id, triggered by the name set itself)
+        z3.ForAll(hv + [x], z3.Implies(tg[x] == T_NAME, N(x)[nid[x]]), patterns=[N(x)]),
     ]
 
 
@@ -556,16 +578,39 @@ def names_lemmas():
     is_root = z3.Or(tg[t] == T_EXPRESSION, tg[t] == T_GPR)
     agree = lambda x: z3.ForAll([k], z3.Implies(names(*h, x)[k], K[k] == K2[k]), patterns=[names(*h, x)[k]])  # noqa
     claim = lambda x: z3.Implies(agree(x), semh(*h, x, K) == semh(*h, x, K2))  # noqa
-    hyp = tree_axioms_arr(tg, nid, op) + names_axioms_arr(tg, nid) + [
+    hyp = tree_axioms_arr(tg, nid, op, at=t) + names_axioms_arr(tg, nid, at=t) + [
         wfh(*h, t), t != NULL,
         z3.Implies(z3.And(is_root, h[2][t] != NULL), claim(h[2][t])),                     # induction hypothesis: body
         z3.ForAll([i], z3.Implies(z3.And(0 <= i, i < h[0][t]), claim(h[1][t][i])), patterns=[h[1][t][i]]),   # ... and children
     ]
-    return [Obl("C08/lemma/semh-depends-on-names/induction-step", hyp, claim(t), "lemma")]
+    # one obligation per kind of node (a well-formed node is of one of these kinds: first hypothesis of the unfolding of wfh)
+    kinds = [("root", is_root), ("Name", tg[t] == T_NAME), ("Or", z3.And(tg[t] == T_BOOLOP, tg[op[t]] == T_OR)),
+             ("And", z3.And(tg[t] == T_BOOLOP, tg[op[t]] == T_AND))]
+    return [Obl(f"C08/lemma/semh-depends-on-names/induction-step/{nm}", hyp + [c], claim(t), "lemma") for nm, c in kinds] + \
+           [Obl("C08/lemma/semh-depends-on-names/induction-step/kinds-cover", hyp, z3.Or(*[c for _, c in kinds]), "lemma")]
+
+
+def root_lemma():
+    """what remove_genes does with a rule it keeps: `remover.visit(rxn.gpr)` visits the body b of the GPR object t (generic_visit of
+    the root: assumed, not part of this lemma) and stores the result r as the new body - None (after `if not hasattr(rxn.gpr,
+    "body"): rxn.gpr.body = None`) when r is None.  From the proved contract of visit for b:  r is None only if the OLD rule is
+    False with the target genes absent (such a reaction can no longer be catalysed: remove_genes deletes it when remove_reactions
+    is set), and otherwise the NEW rule evaluates, for K, to what the OLD rule evaluates to with K u S absent."""
+    from pyvc.engine import Obl
+    tg, nid, op = z3.Const("r_tag", RefInt), z3.Const("r_id", z3.ArraySort(Ref, Id)), z3.Const("r_op", RefRef)
+    h0 = (z3.Const("r_VN", RefInt), z3.Const("r_VS", RefSeq), z3.Const("r_BD", RefRef))
+    h1 = (z3.Const("r_VN1", RefInt), z3.Const("r_VS1", RefSeq), z3.Const("r_BD1", RefRef))
+    t, r, S, K = z3.Const("r_t", Ref), z3.Const("r_r", Ref), z3.Const("r_S", IdSet), z3.Const("r_K", IdSet)
+    b = h0[2][t]
+    hyp = tree_axioms_arr(tg, nid, op, at=t) + [t != NULL, tg[t] == T_GPR, b != NULL, wfh(*h0, t),
+                                          rm_spec(tg, h0, h1, S, b, r, K), h1[2][t] == r]
+    goal = z3.And(z3.Implies(r == NULL, z3.Not(semh(*h0, t, union(K, S)))),
+                  z3.Implies(r != NULL, z3.And(wfh(*h1, r), semh(*h1, t, K) == semh(*h0, t, union(K, S)))))
+    return [Obl("C08/lemma/remove-genes/kept-rule-is-old-rule-with-genes-absent", hyp, goal, "lemma")]
 
 
 def all_lemmas():
-    return lemmas() + names_lemmas()
+    return lemmas() + names_lemmas() + root_lemma()
 
 
 # ================================================================ (3) GPR._symbolic_gpr: the rule tree -> sympy (a tree homomorphism)
@@ -923,3 +968,66 @@ _cl_other.modifies_on_raise = CL_MOD
 REG.add(Contract(MG, "GPRCleaner.visit_BinOp", "C08", CL_PARAMS, [_cl_and, _cl_or, _cl_other], pre=_cl_pre, modifies=CL_MOD,
                  axioms=lambda E: tree_axioms(E, E.s0), key="GPRCleaner.visit_BinOp",
                  result=lambda eng, st, E: (st, VRef(fresh("binop_res", Ref), "AstNode"))))
+
+
+# ================================================================ the evaluator against the SAME semantics (heap-resident child lists)
+# c07_knockout proves GPR._eval_gpr / GPR.eval equal to `sem` over immutable child sequences; the contracts above talk about semh
+# over the mutable heap.  Second contracts of the two functions (keys `.../heap`), proved on the same source with the hook table of
+# this module, state the evaluator against semh, so that every clause of C08 proved here is about one and the same function:
+# eval(K) == semh(h, rule, K);  removal, symbolic form and == preserve / respect semh;  genes == names.
+def _evh_term(E, st):
+    x = E["expr"].t
+    return z3.If(x == NULL, z3.BoolVal(True), semh(*heap3(E, st), x, C7.set_dom(st, E["knockouts"])))
+
+
+def _evh_cases():
+    x = lambda E: E["expr"].t  # noqa
+    tg = lambda E: H(E, E.s0, "ast_tag")  # noqa
+    optag = lambda E: tg(E)[H(E, E.s0, "op")[x(E)]]  # noqa
+    post = lambda E: E.res.t == _evh_term(E, E.s0)  # noqa
+    return [Case("root_node", requires=lambda E: z3.And(x(E) != NULL, z3.Or(tg(E)[x(E)] == T_EXPRESSION, tg(E)[x(E)] == T_GPR)), ensures=post),
+            Case("name", requires=lambda E: z3.And(x(E) != NULL, tg(E)[x(E)] == T_NAME), ensures=post),
+            Case("or", requires=lambda E: z3.And(x(E) != NULL, tg(E)[x(E)] == T_BOOLOP, optag(E) == T_OR), ensures=post),
+            Case("and", requires=lambda E: z3.And(x(E) != NULL, tg(E)[x(E)] == T_BOOLOP, optag(E) == T_AND), ensures=post),
+            Case("none", requires=lambda E: x(E) == NULL, ensures=post)]
+
+
+_evh = REG.add(Contract(MG, "GPR._eval_gpr", "C08", [("self", TRef("GPR")), C7.NODE, C7.KO], _evh_cases(),
+                        pre=lambda E: wfh(*heap3(E, E.s0), E["expr"].t), axioms=lambda E: tree_axioms(E, E.s0),
+                        key="GPR._eval_gpr/heap", result=lambda eng, st, E: (st, VBool(_evh_term(Env(E.a, st, eng=eng), st)))))
+_evh.call_cases = [Case("any")]          # the result term itself is semh(h, expr, K)
+
+
+def _evalh_K(E, st):
+    ko = E["knockouts"]
+    return EMPTY if isinstance(ko, VNone) else C7.set_dom(st, ko)
+
+
+def _evalh_cases():
+    out = []
+    for nm, t in (("knockouts_set", TSet("id")), ("knockouts_none", TNone())):
+        c = Case(nm, ensures=lambda E: E.res.t == semh(*heap3(E, E.s0), E["self"].t, _evalh_K(E, E.s0)))
+        c.params_override = {"knockouts": t}
+        c.applies = (lambda a, st: isinstance(a["knockouts"], VNone)) if nm == "knockouts_none" else \
+            (lambda a, st: not isinstance(a["knockouts"], VNone))
+        out.append(c)
+    return out
+
+
+_kn2 = TNone()
+_kn2.default = NONE
+REG.add(Contract(MG, "GPR.eval", "C08", [("self", TRef("GPR")), ("knockouts", _kn2)], _evalh_cases(), pre=_gpr_pre,
+                 axioms=lambda E: tree_axioms(E, E.s0), key="GPR.eval/heap",
+                 result=lambda eng, st, E: (st, VBool(semh(*heap3(Env(E.a, st, eng=eng), st), E["self"].t, _evalh_K(E, st))))))
+
+
+def evh_call_method_hook(eng, st, recv, name, pos, kw):
+    """inside this module's proofs the recursive calls of the evaluator use ITS heap contract"""
+    if isinstance(recv, VRef) and recv.cls == "GPR" and name == "_eval_gpr":
+        return eng.apply_contract(st, eng.reg.get("GPR._eval_gpr/heap"), [recv] + list(pos), kw)
+    return None
+
+
+HOOKS_EV = chain_hooks({"call_method": evh_call_method_hook}, HOOKS_CL)
+HOOKS_EV["call_abstract"] = HOOKS_SYM["call_abstract"]
+HOOKS = HOOKS_EV
